@@ -197,6 +197,17 @@ PROPS = {
         outside="that the whole optimisation pass preserves what the document shows; stream dictionaries and font dictionaries (font-name prefix rule); trees deeper than 2; cyclic reference graphs",
         harnesses=[dict(name="VerifEqualObjectsSound", bounds=dict(quick=dict(W=1), thorough=dict(W=2)), opts=dict(unwind=100))],
     ),
+    "C22": dict(
+        pkg=PD,
+        explanation="the byte-level cipher plumbing executed symbolically with the cipher CORES abstracted: encryptBytes/decryptBytes, encryptStream/decryptStream, encryptAESBytes/decryptAESBytes (padding, IV, CBC chaining through the real crypto/cipher CBC code), applyRC4CipherBytes/applyRC4Bytes (through cipher.StreamReader), decryptKey, and the object traversal encryptDeepObject/decryptDeepObject with encryptStringLiteral/HexLiteral (Unescape/Escape and hex codec of ciphertext): for every file key (all bytes symbolic), object number < 2^32, generation < 2^16, revision 2..6 / RC4-40, RC4-128, AES-128, AES-256 and every plaintext of the lengths around the block boundaries, decrypt(encrypt(x)) == x, ciphertext has the right shape, signature /Contents are exempt in both directions; decryptKey hashes exactly key || objNr[0..2] || gen[0..1] [|| sAlT] (ISO 32000-1 Algorithm 1) and refuses out-of-range numbers. AES, RC4 and MD5 are replaced under the engine by keyed xor pads / a toy hash (stubs of aes.NewCipher, rc4.NewCipher, (*rc4.Cipher).XORKeyStream, md5.New): a wrong key, wrong IV handling or wrong padding does not cancel and yields a counterexample",
+        outside="the cipher and hash cores themselves (AES, RC4, MD5, SHA-2: S-box lookups at symbolic indices are out of reach), hence ciphertext values; whole documents (which objects are encrypted: writeObjects.go callers), password/key derivation (C24), permissions (C25/C26), plaintext longer than 33 bytes, IVs are arbitrary (fresh solver variables) in the byte harness and fixed in the object harness",
+        assumptions=["AES-CBC and RC4 behave as keyed permutations / xor streams (the abstract ciphers used under the engine); natively the real ciphers run in the differential vectors and in replays"],
+        harnesses=[
+            dict(name="VerifCipherBytesRoundTrip", bounds=dict(quick=dict(N=17), thorough=dict(N=33)), opts=dict(unwind=300)),
+            dict(name="VerifCipherObjectRoundTrip", bounds=dict(quick=dict(S=1), thorough=dict(S=2)), opts=dict(unwind=300, wall_timeout=6000)),
+            dict(name="VerifObjectKeyInput", opts=dict(unwind=300)),
+        ],
+    ),
     "C25": dict(
         pkg=PD,
         explanation="setupEncryptionKey (the open/refuse decision) executed symbolically over all outcomes of the three cryptographic validators (symbolic booleans), every CommandMode value, all 2^32 permission words, R in 2..6 and password emptiness",
